@@ -66,6 +66,10 @@ class Prover:
                         res = witness_fn(name, model, neg)
                     except Inconclusive as e:
                         res = {"confirmed": False, "detail": "witness construction failed: %s" % e}
+                if res.get("refined_holds"):
+                    R.add(oid, "holds", solver_s=now() - t0, queries=env.STATS.queries - q0, detail=res.get("detail", ""), **info)
+                    results[name] = "holds"
+                    continue
                 R.add(oid, "violated", solver_s=now() - t0, queries=env.STATS.queries - q0, detail=detail + res.get("detail", ""),
                       confirmed=res.get("confirmed", False), replay_path=res.get("replay_path"), key=res.get("key", oid), **info)
                 results[name] = "violated"
